@@ -288,6 +288,8 @@ class SegmentListType(SerializableArray):
     def to_node(self, doc, tag, ns_key=None, parent=None, check_validity=False, strict=DEFAULT_STRICT):
         anode = super(SegmentListType, self).to_node(
             doc, tag, ns_key=ns_key, parent=parent, check_validity=check_validity, strict=strict)
+        if anode is None:
+            return None  # an empty list writes nothing
         create_text_node(
             doc, 'NumSegments' if ns_key is None else '{}:NumSegments'.format(ns_key),
             '{0:d}'.format(self.NumSegments), parent=anode)
